@@ -316,7 +316,9 @@ endmodule
   i.tick(); assert i.get_port("o_swap") == 1
   multi, drv = svsim.drivers(des, "T"); assert not multi
   for bad, why in (("module A ( input logic [0:0] clk ); logic [1:0] x; logic [1:0] x; endmodule", "declared twice"),
-                   ("module A ( input logic [0:0] clk ); endmodule module A ( input logic [0:0] clk ); endmodule", "defined twice")):
+                   ("module A ( input logic [0:0] clk ); endmodule module A ( input logic [0:0] clk ); endmodule", "defined twice"),
+                   ("module A ( input logic [0:0] clk, output logic [1:0] o ); always_comb begin : o\n o = 2'd1; end endmodule", "name of another declaration"),
+                   ("module B ( input logic [0:0] clk ); endmodule module A ( input logic [0:0] clk ); logic [0:0] b; B b ( .clk( clk ) ); endmodule", "name of another declaration")):
     try: svsim.Inst(svsim.Design(bad), "A")
     except Exception as ex: assert why in str(ex), ex
     else: raise AssertionError("accepted: " + bad)
